@@ -142,3 +142,6 @@ def run(ctx):
                "an integer value for a %s column is written with %s (%s) but the column is read with %s (%s): the value comes back as a "
                "different number" % (T, setters[0].rsplit("::", 1)[-1] if setters else "?", wty, getters[0].rsplit("::", 1)[-1] if getters else "?", rty), sa.loc())
     ctx.floor("D5.numeric_types", n5, 5)
+    import dmlrules
+    dmlrules.root_writeback(ctx, "D6.ROOT-WRITEBACK", ["database::toast::<impl database::database::Database>::toast_value",
+                                                     "database::dml::insert::<impl database::database::Database>::execute_insert_internal"])
